@@ -310,7 +310,7 @@ def fwd_cases(rng, tier):
 def life_cases(rng, tier, with_borrowed=True):
     cases = ["106 | 0 1 ; 1 0 ; 2 0 ; 2 0 ; 7 1 ; 4 0 ; 1 3 ; 7 3", "106 | 0 1 ; 5 0", "106 | 8 5 ; 6 0 ; 6 1 ; 7 0", "106 | 10 7 1 ; 11 0 ; 6 1 ; 12 1 ; 11 3",
              "106 | 10 7 0 ; 11 0", "106 | 13 4 ; 14 5", "106 | 0 2 ; 2 0 ; 5 0 ; 1 1", "106 | 15 -77 ; 1 0 ; 7 0", "106 | 15 -77 ; 15 -77 ; 7 1",
-             "106 | 10 7 1 ; 16 0", "106 | 10 7 0 ; 17 0 ; 1 1", "106 | 0 4 ; 18 0 ; 18 0 ; 7 1 ; 7 0 ; 7 2", "106 | 10 7 1 ; 19 0 ; 11 0 ; 19 2 ; 7 1", "106 | 10 7 1 ; 11 0 ; 6 1 ; 16 1 ; 17 2", "106 | 10 7 1 ; 11 0 ; 12 1 ; 16 2"]
+             "106 | 10 7 1 ; 16 0", "106 | 10 7 0 ; 17 0 ; 1 1", "106 | 0 4 ; 18 0 ; 18 0 ; 7 1 ; 7 0 ; 7 2", "106 | 0 4 ; 20 0 ; 11 1 ; 6 2 ; 7 0 ; 16 3", "106 | 0 4 ; 20 0 ; 20 0 ; 17 1 ; 7 0", "106 | 10 7 1 ; 19 0 ; 11 0 ; 19 2 ; 7 1", "106 | 10 7 1 ; 11 0 ; 6 1 ; 16 1 ; 17 2", "106 | 10 7 1 ; 11 0 ; 12 1 ; 16 2"]
     if with_borrowed:
         cases.append("106 | 9 3 ; 3 0 ; 3 0 ; 3 0")
     n = 300 if tier == "quick" else 6000
@@ -335,12 +335,12 @@ def life_cases(rng, tier, with_borrowed=True):
                 ops.append([rng.choice([13, 14]), 50 + nid]); nid += 1
                 continue
             if r < 32:   # ill-targeted stream
-                ops.append([rng.choice([1, 2, 4, 5, 6, 7, 11, 12, 16, 17, 18, 19]), rng.range(0, len(kinds))])
+                ops.append([rng.choice([1, 2, 4, 5, 6, 7, 11, 12, 16, 17, 18, 19, 20]), rng.range(0, len(kinds))])
                 continue
             h = rng.choice(live)
             k = kinds[h]
             if k == "N":
-                c = rng.choice([1, 2, 2, 18, 18, 4, 5, 7])
+                c = rng.choice([1, 2, 2, 18, 18, 20, 20, 4, 5, 7])
             elif k == "H":
                 c = rng.choice([1, 7])
             elif k == "C":
@@ -353,6 +353,7 @@ def life_cases(rng, tier, with_borrowed=True):
                 c = rng.choice([1, 6, 6, 12, 7, 16, 17, 19])
             ops.append([c, h])
             if c in (2, 18, 19): kinds.append("H")
+            elif c == 20: kinds.append("G1")
             elif c in (4, 17): kinds[h] = "D"; kinds.append("H")
             elif c in (5, 7, 16): kinds[h] = "D"
             elif c == 6: kinds.append(k)
